@@ -190,6 +190,15 @@ def run_property(pid, rules_mod, repo="/repo", tier="quick", configs=None, seed=
                 rep.unk(rid, "-", "engine error: %r\n%s" % (e, traceback.format_exc()[-1500:]))
             if len(rep.results) == n0:
                 rep.unk(rid, "-", "rule produced no instance (vacuous)")
+        if tag == "default":
+            from . import narrow
+            try:
+                narrow.check(ctx, rep, pid)
+                narrow.check_noop(ctx, rep, pid)
+            except (Broken, AnalysisBroken, mm.Unknown) as e:
+                rep.unk(pid + ".narrow", "-", str(e))
+            except Exception as e:
+                rep.unk(pid + ".narrow", "-", "engine error: %r\n%s" % (e, traceback.format_exc()[-1500:]))
         if tag == "default" and not getattr(rules_mod, "NO_NDEBUG_RULE", False):
             from . import ndebug
             try:
